@@ -87,3 +87,11 @@ func init() {
 		variant{Prop: "C01", Name: "benign-stmt-parens-if-else-C01", File: af, Old: "\tneedsParens := beginsLikeStatement(es.Expression)\n\tif needsParens {\n\t\tcw.WriteRune('(')\n\t}\n\tes.Expression.WriteTo(cw)\n\tif needsParens {\n\t\tcw.WriteRune(')')\n\t}\n", New: "\tif beginsLikeStatement(es.Expression) {\n\t\tcw.WriteRune('(')\n\t\tes.Expression.WriteTo(cw)\n\t\tcw.WriteRune(')')\n\t} else {\n\t\tes.Expression.WriteTo(cw)\n\t}\n", Benign: true},
 	)
 }
+
+// R7.4: the strconv error kept in a bool
+func init() {
+	addVariants(
+		variant{Prop: "C07", Name: "feature-numeric-separators-validation", Patch: "benign/C07-r10-1/patch.diff", Benign: true},
+		variant{Prop: "C07", Name: "feature-numeric-separators-error-inverted", Patch: "benign/C07-r10-1/patch.diff", File: "parser/parser_functions.go", Old: "\t\tok = err == nil\n", New: "\t\tok = err != nil\n", Nth: 1, Rule: "R7.4", Construct: "INT"},
+	)
+}
